@@ -114,12 +114,12 @@ def ensure_project():
 _ERR_RE = re.compile(r'File "\./([^"]+)", line (\d+), characters [\d-]+:\s*\n((?:.*\n?)*)')
 
 
-def make(targets, timeout=1500, jobs=16):
+def make(targets, timeout=1500, jobs=16, keep_going=False):
     """make the given .vo targets (paths relative to coq/).  Raises CoqError on failure."""
     lk = _lock()
     try:
         ensure_project()
-        cmd = ['timeout', str(timeout), 'make', '-j%d' % jobs] + list(targets)
+        cmd = ['timeout', str(timeout), 'make', '-j%d' % jobs] + (['-k'] if keep_going else []) + list(targets)
         r = subprocess.run(cmd, cwd=COQ_DIR, stdout=subprocess.PIPE, stderr=subprocess.STDOUT, text=True)
     finally:
         lk.close()
